@@ -1702,8 +1702,14 @@ namespace cds { namespace intrusive {
                             bkoff();
                             m_Stat.onMarkFailed();
                         }
-                        else if ( pSucc.bits() != nMask )
+                        else if ( pSucc.bits() != nMask ) {
+                            // pDel is being removed by another thread in the other mode (erase vs extract).
+                            // That thread wins but the key is present until it marks level 0:
+                            // "not found" may be reported only after that
+                            while ( pDel->next( 0 ).load( memory_model::memory_order_acquire ).bits() == 0 )
+                                bkoff();
                             return false;
+                        }
                     }
                 }
             }
